@@ -14,6 +14,7 @@
 import DateutilVerif.Base.Wire
 import DateutilVerif.Model.Parser
 import DateutilVerif.Spec.ParserTemplates
+import DateutilVerif.Spec.ParserTemplatesGen
 
 namespace Ops.Parser
 open Wire PM
@@ -216,6 +217,15 @@ def handle (op : String) (args : List String) : Option String :=
          | "hmsl" => "ok " ++ showCps (PT.renderHmsLetters t)
          | _ => "bad-args")
       | _, _, _ => "bad-args")
+  | "parser.proved", [] =>
+    -- ids of the templates that have a parse_render theorem (C02.proved_templates_have_theorems), with offset scope
+    some ("ok " ++ ",".intercalate (PT.provedTemplates.map (fun p => p.1 ++ ":" ++ p.2)))
+  | "parser.tmpl", [id, dt, off] =>
+    some (match (parseIntList? dt).bind DT.ofList?, parseOff? off with
+      | some t, some o => (match PT.renderById id t o with
+          | some cs => "ok " ++ showCps cs
+          | none => "err unknown-template")
+      | _, _ => "bad-args")
   | "parser.asciicls", [] =>
     some ("ok " ++ String.ofList ((List.range 128).map (fun i => match asciiCls (Char.ofNat i) with
       | .alpha => 'a' | .decDigit v => Char.ofNat (48 + v) | .otherDigit => 'n' | .space => 's' | .other => 'x')))
